@@ -62,7 +62,13 @@ type recorder struct {
 	pevEvery    int
 	pevCanaries []int
 	parser      *jmespath.Parser
+	seen        []seenText
 	tokCanaries []int
+}
+
+type seenText struct {
+	h    int
+	text string
 }
 
 func (r *recorder) emit(ev map[string]interface{}) int {
@@ -151,6 +157,24 @@ func (r *recorder) run(text string, doc interface{}, reps int, canary string) {
 			r.canaries = append(r.canaries, map[string]interface{}{"line": r.line + 1, "kind": "parse"})
 		}
 		r.emit(pe)
+		// ... and an EARLIER text of the trace once more on the same Parser (a parser that remembers texts must not answer differently)
+		r.seen = append(r.seen, seenText{r.h, text})
+		if len(r.seen) > 3 && r.rng.Intn(3) == 0 {
+			old := r.seen[r.rng.Intn(len(r.seen))]
+			var n2 jmespath.ASTNode
+			po2 := direct(func() (interface{}, error) {
+				var err error
+				n2, err = r.parser.Parse(old.text)
+				return nil, err
+			})
+			pe2 := map[string]interface{}{"op": "Parse", "h": old.h, "text": bytesToCps(old.text), "ok": po2.Kind == "ok", "ast": []interface{}{}}
+			if po2.Kind == "ok" {
+				if direct(func() (interface{}, error) { pe2["ast"] = nodeAST(n2); return nil, nil }).Kind != "ok" {
+					pe2["ast"] = []interface{}{}
+				}
+			}
+			r.emit(pe2)
+		}
 	}
 	if jp == nil {
 		return
